@@ -471,6 +471,7 @@ Inductive srel : ty -> ty -> Prop :=
 | SR_struct a a' dh dh' fs fs' : srel_fields fs fs' -> srel (TStruct a dh fs) (TStruct a' dh' fs')
 | SR_disj a a' d d' : srel_list (d_branches d) (d_branches d') -> srel (TDisj a d) (TDisj a' d')
 | SR_inter a a' bs bs' : srel_list bs bs' -> srel (TInter a bs) (TInter a' bs')
+| SR_enum a vs vs' : srel (TEnum a vs) (TEnum a vs')      (* members renamed *)
 with srel_fields : list field -> list field -> Prop :=
 | SRF_nil : srel_fields [] []
 | SRF_cons f f' r r' :
@@ -521,6 +522,7 @@ Section SrelPres.
       p inter (TStruct a dh fs) = false -> p inter (TStruct a' dh' fs') = false.
   Hypothesis sp_disj : forall inter a a' d d',
       Forall2 U (d_branches d) (d_branches d') -> p inter (TDisj a d) = false -> p inter (TDisj a' d') = false.
+  Hypothesis sp_enum : forall inter a vs vs', p inter (TEnum a vs) = false -> p inter (TEnum a vs') = false.
 
   Lemma srel_pres_all :
     (forall t t', srel t t' -> forall inter, any_sub p inter t = false -> any_sub p inter t' = false) /\
@@ -550,6 +552,7 @@ Section SrelPres.
     - intros a a' bs bs' _ [HF2 IH] inter H. simpl in *. apply orb_false_iff in H. destruct H as [Hp Hc].
       rewrite (sp_inter inter a a' bs bs' Hp). simpl. apply existsb_false_iff.
       apply (IH true). exact (proj1 (existsb_false_iff _ _) Hc).
+    - intros a vs vs' inter H. simpl in *. rewrite orb_false_r in *. apply (sp_enum inter a vs vs'). exact H.
     - split; [constructor|]. intros inter _ f' [].
     - intros f f' r r' Hreq Hkn Hs IHs _ [HF2 IH]. split; [constructor; [split; assumption|assumption]|].
       intros inter Hc g [<-|Hg]; [apply IHs; apply Hc; left; reflexivity|].
@@ -569,7 +572,7 @@ Section SrelPres.
 
   Lemma srel_pres_below t t' : srel t t' -> any_below p t = false -> any_below p t' = false.
   Proof.
-    intros H. induction H as [t|t l Hl|t t' a H IH|a a' v v' H _|a a' i i' v v' Hi _ Hv _|a a' dh dh' fs fs' H _|a a' d d' H _|a a' bs bs' H _| | | | ]
+    intros H. induction H as [t|t l Hl|t t' a H IH|a a' v v' H _|a a' i i' v v' Hi _ Hv _|a a' dh dh' fs fs' H _|a a' d d' H _|a a' bs bs' H _|a vs vs'| | | | ]
       using srel_ind2 with (P0 := fun _ _ _ => True) (P1 := fun _ _ _ => True); try exact I.
     - intros Hc. exact Hc.
     - intros _. destruct l; simpl in Hl; try contradiction; reflexivity.
@@ -583,5 +586,6 @@ Section SrelPres.
       apply (proj2 (proj2 (proj2 srel_pres_all) _ _ H) false). exact (proj1 (existsb_false_iff _ _) Hc).
     - unfold any_below. simpl. rewrite !existsb_map_eq. simpl. intros Hc. apply existsb_false_iff.
       apply (proj2 (proj2 (proj2 srel_pres_all) _ _ H) true). exact (proj1 (existsb_false_iff _ _) Hc).
+    - intros _. reflexivity.
   Qed.
 End SrelPres.
